@@ -13,7 +13,9 @@ What is decided is the protocol every imported definition goes through -- each c
       there is a mangle; `%ignore` applies only at top level; nested imports receive the current mangle as their base;
   m5  `do_import` loads the imported text with the *new* mangle, prunes to what the import names (mangled), refuses a clash
       with an existing definition before merging, and merges all remaining definitions;
-  m6  `_define` refuses a second definition unless overriding, and an override of nothing.
+  m6  `_define` refuses a second definition unless overriding, and an override of nothing;
+  e1  `%extend` inserts into the existing definition tree in place (definitions are shared by reference);
+  t1  template instances are named injectively (template name + verbatim argument names joined by a non-name character).
 """
 from __future__ import annotations
 
@@ -22,13 +24,23 @@ from typing import Dict, List, Optional, Set, Tuple
 
 from ..model import Repo, FuncInfo, AnalysisError, norm, parent, ancestors, enclosing_stmt, const_str
 from ..report import Ctx, RuleResult
-from ..exprs import find_pat, has_pat, match_cond, cond_values, bool_relation, path_conditions, runs_only_if, call_args_by_name
+from ..exprs import str_template, find_pat, has_pat, match_cond, cond_values, bool_relation, path_conditions, runs_only_if, call_args_by_name
 
 LG = 'lark.load_grammar:'
 
 
-def _fmt_strings(f: FuncInfo) -> List[Tuple[str, ast.BinOp]]:
-    return [(const_str(n.left), n) for n in f.body_nodes() if isinstance(n, ast.BinOp) and isinstance(n.op, ast.Mod) and const_str(n.left)]
+def _fmt_strings(f: FuncInfo) -> List[Tuple[str, ast.AST]]:
+    """The strings the function builds from a literal template and holes ('%', str.format, f-string, '+'), outermost only."""
+    out = []
+    for n in f.body_nodes():
+        t = str_template(n)
+        if t is None or not t[1]:
+            continue
+        p_ = parent(n)
+        if p_ is not None and isinstance(p_, ast.BinOp) and isinstance(p_.op, ast.Add) and str_template(p_) is not None:
+            continue
+        out.append((t[0], n))
+    return out
 
 
 def run(ctx: Ctx) -> RuleResult:
@@ -48,8 +60,8 @@ def run(ctx: Ctx) -> RuleResult:
     plain = [n for t, n in fm if t == '%s__%s']
     ok = len(under) == 1 and len(plain) == 1 and len(fm) == 2
     if ok:
-        ua = under[0].right.elts if isinstance(under[0].right, ast.Tuple) else []
-        pa = plain[0].right.elts if isinstance(plain[0].right, ast.Tuple) else []
+        ua = str_template(under[0])[1]
+        pa = str_template(plain[0])[1]
         ok = len(ua) == 2 and norm(ua[0]) == gp[0] and norm(ua[1]) == '%s[1:]' % s and len(pa) == 2 and norm(pa[0]) == gp[0] and norm(pa[1]) == s
         lead = ast.parse("%s[0] == '_'" % s, mode='eval').body
         lead2 = ast.parse("%s.startswith('_')" % s, mode='eval').body
@@ -221,4 +233,55 @@ def run(ctx: Ctx) -> RuleResult:
     if not ok:
         res.finding(df, df.node, '_define no longer refuses redefinition without %override / an %override of an undefined name',
                     construct='m6:define')
+    # ---- e1: %extend changes the existing definition in place ------------------------------------------------------------
+    # (terminals are expanded by reference: another definition that already mentions the extended one shares its tree, and an
+    #  imported grammar's definitions reach the importer as the same objects)
+    ex = repo.func(LG + 'GrammarBuilder._extend')
+    site = '%s %s' % (ex.loc(), ex.qual)
+    nparam = ex.positional_names()[0]
+    sn_ = ex.self_name() or 'self'
+    D = {'%s._definitions[%s]' % (sn_, nparam)}
+    D |= {norm(a.targets[0]) for a in ex.body_nodes() if isinstance(a, ast.Assign) and len(a.targets) == 1 and norm(a.value) in D}
+    trees = {d_ + '.tree' for d_ in D}
+    trees |= {norm(a.targets[0]) for a in ex.body_nodes() if isinstance(a, ast.Assign) and len(a.targets) == 1 and norm(a.value) in trees
+              and isinstance(a.targets[0], ast.Name)}
+    rebinds = [a for a in ex.body_nodes() if isinstance(a, ast.Assign) and any(
+        norm(t) in {d_ + '.tree' for d_ in D} or (isinstance(t, ast.Subscript) and norm(t.value).endswith('._definitions')) for t in a.targets)]
+    inserts = [c for c in ex.body_nodes() if isinstance(c, ast.Call) and isinstance(c.func, ast.Attribute) and c.func.attr in ('insert', 'append', 'extend')
+               and norm(c.func.value) in {t_ + '.children' for t_ in trees}]
+    ok = not rebinds and len(inserts) == 1
+    why = 'it rebinds %s' % [norm(a) for a in rebinds] if rebinds else 'no in-place insertion into the existing tree'
+    res.ob(site, 'e1: %extend inserts the new alternative into the existing definition tree (same object)', ok)
+    if not ok:
+        res.finding(ex, ex.node, '%%extend no longer extends the existing definition tree in place (%s): definitions that already refer to the '
+                    'extended one (terminals are expanded by reference, also across an import) keep the old alternatives' % why, construct='e1:extend-in-place')
+    # ---- t1: template instances are named injectively --------------------------------------------------------------------
+    tu = repo.func(LG + 'ApplyTemplates.template_usage')
+    site = '%s %s' % (tu.loc(), tu.qual)
+    joins = [c for c in tu.body_nodes() if isinstance(c, ast.Call) and isinstance(c.func, ast.Attribute) and c.func.attr == 'join' and const_str(c.func.value) is not None]
+    ok = len(joins) == 1
+    why = 'cannot find the instance name'
+    if ok:
+        sep = const_str(joins[0].func.value)
+        import re as _re2
+        arg = joins[0].args[0] if joins[0].args else None
+        elt = arg.elt if isinstance(arg, (ast.GeneratorExp, ast.ListComp)) else None
+        verbatim = isinstance(elt, ast.Attribute) and elt.attr == 'name' and isinstance(elt.value, ast.Name)
+        ok = bool(sep) and not _re2.search(r'[A-Za-z0-9_]', sep) and verbatim
+        why = 'separator %r, elements %s' % (sep, norm(elt) if elt is not None else '?')
+        # the template name and the joined arguments are separated by text holding a character no name contains
+        sepd = False
+        for t, n in _fmt_strings(tu):
+            args_ = str_template(n)[1]
+            pieces = t.split('%s')
+            for k, a_ in enumerate(args_):
+                if a_ is joins[0] and k > 0 and _re2.search(r'[^A-Za-z0-9_%]', pieces[k]):
+                    sepd = True
+        if ok and not sepd:
+            why = 'template name and arguments are not separated by a character no name contains'
+        ok = ok and sepd
+    res.ob(site, 't1: a template instance is named by the template and its argument names, verbatim, joined by a character no name contains', ok)
+    if not ok:
+        res.finding(tu, tu.node, 'template instance names are not injective in (template, arguments) (%s): two different instantiations get one '
+                    'name, and the second silently reuses the first (the name is also the "already created" key)' % why, construct='t1:instance-name')
     return res
